@@ -338,7 +338,9 @@ def install(eng):
 
     def py_enumerate(v, start=0):
         if isinstance(v, SymSeq):
-            return SymSeq(v.length, lambda i: (SymInt(i + start), v.elem(i)), name=f"enumerate({v.name})")
+            s = SymSeq(v.length, lambda i: (SymInt(i + start), v.elem(i)), name=f"enumerate({v.name})")
+            s.enum_of, s.enum_start = v, start  # contracts may look through the enumeration at the underlying sequence
+            return s
         return [(i + start, x) for i, x in enumerate(eng.iterate(v))]
 
     def py_zip(*vs):
